@@ -16,7 +16,7 @@ def script(path, text):
 
 def run(ck, replay=None):
     ck.cov['rule'] = ('TLC evaluates Resolve.tla for every subset of {private, alias, function, builtin, external} defined for a name, every alias target '
-                      '(a builtin with arguments, the name itself, another name) and every subset of {alias, function, external} defined for that other '
+                      '(a builtin with arguments, the name itself, another name) and every subset of {private, alias, function, external} defined for that other '
                       'name; each row is set up in the real interpreter (private/function/alias definitions, an executable on $PATH, the builtin '
                       '`escape` as the builtin case), the name is run and the definition that answered is compared with the table.  '
                       'non-trivial = at least two definitions or an alias; distinct = different rows.')
@@ -54,6 +54,8 @@ def run(ck, replay=None):
             if name == BUILTIN:
                 builtin_rows.append(cid)
             script(os.path.join(bindir, name if name != BUILTIN else BUILTIN + '.ext%d' % cid), 'ext')
+        if 'private' in odefs:
+            src.append('private %s { out opriv }' % other)
         if 'alias' in odefs:
             src.append('alias %s=out oalias' % other)
             clean.append('!alias %s' % other)
@@ -74,7 +76,7 @@ def run(ck, replay=None):
     os.environ['PATH'] = bindir + ':' + os.environ.get('PATH', '')
     res = prog.run_programs(ck, jobs, shards=8, tag='c22')
     want_tag = {'private': 'priv', 'alias': 'alias a', 'function': 'fn', 'builtin': '"a"', 'external': 'ext',
-                'other-function': 'ofn', 'other-external': 'oext'}
+                'other-function': 'ofn', 'other-external': 'oext', 'other-private': 'opriv'}
     nontriv = set()
     unjudged = 0
     for cid, (c, name, src) in meta.items():
